@@ -24,6 +24,7 @@ RULE = ('Hypothesis generates (extinction law, 2..6 filters incl. wavelengths ou
         'distinct = distinct canonical JSON of the case.')
 RULE += (' ' + 'Also varied: cube packages fitted with a filter list mixing names and wavelengths, cube / convolved files stored in Jy or mJy, .fits.gz convolved files and parameter table, model names longer than 30 characters (cube + wavelength cases), packages rewritten in place, integer-typed photometry.')
 RULE += (' ' + 'models.conf is written as documented or in any other spelling the reader takes as the same declaration (Yes/NO/n, no blanks around =, comment and blank lines, keys in another order).')
+RULE += (' ' + 'Cube packages fitted at wavelengths may tabulate their slices 1.5..3 per cent off the wavelengths asked for (nearest slice; the extinction coefficient belongs to the wavelength asked for).')
 ASSUMPTIONS = [
     'objective-gap tolerance 1e-10*sum(w r^2)+1e-12, parameter tolerance 1e-6*(1+max|p*|) when cond<=1e8 (DESIGN 2.2)',
     'singular regressions (all k equal or <2 fitted points) are outside the stated domain: counted, not asserted',
@@ -125,6 +126,7 @@ def run_case(case, ctx):
 @st.composite
 def cases(draw, thorough=False):
     c = draw(gen.fit_case_2d(max_models=12 if thorough else 8, max_filters=8 if thorough else 6))
+    gen.off_grid_requests(draw, c)
     # some sources carry their photometry as integers (a catalogue in integer mJy, Python ints): same numbers, other dtype
     c['sources'] = [gen.integerize(s) if draw(st.integers(0, 3)) == 0 else s for s in c['sources']]
     # C01's domain: ignored points carry positive values here (arbitrary values are exercised in C03)
